@@ -79,7 +79,13 @@ NUMERIC_DEFAULTS = {'i': 1, 'b': True, 'x': 1.0}   # equal, of three types
 
 def default_value(p):
   """The default OBJECT of param p = [name, kind, dflt, ...] (dflt != None)."""
+  if p[2] == 'o':
+    return stubmod.DEFAULT_OBJ     # an opaque object: a copy of it is NOT it
   return NUMERIC_DEFAULTS[p[2]] if p[2] in NUMERIC_DEFAULTS else default_token(p[0])
+
+
+def default_source(p):
+  return 'DEFAULT_OBJ' if p[2] == 'o' else repr(default_value(p))
 
 
 def sig_source(params, first=None):
@@ -97,12 +103,12 @@ def sig_source(params, first=None):
       # a STRING annotation naming a module global that is defined only later
       # (forward reference): unresolvable until then
       name += ": 'typing.Annotated[object, " + p[3]['late'] + "]'"
-      return name if p[2] is None else f'{name} = {default_value(p)!r}'
+      return name if p[2] is None else f'{name} = {default_source(p)}'
     if len(p) > 3 and p[3]:
       # annotation tags: fiddle attaches them when the config is created
       name += ': typing.Annotated[object, ' + ', '.join(p[3]) + ']'
-      return name if p[2] is None else f'{name} = {default_value(p)!r}'
-    return name if p[2] is None else f'{name}={default_value(p)!r}'
+      return name if p[2] is None else f'{name} = {default_source(p)}'
+    return name if p[2] is None else f'{name}={default_source(p)}'
 
   out += [one(p) for p in po]
   if po:
@@ -170,8 +176,8 @@ def stub_source(spec):
       pname, pkind, dflt = p[:3]
       assert pkind in ('pk', 'ko'), 'dataclass stubs: pk/ko params only'
       opts = []
-      if dflt == 'v' or dflt in NUMERIC_DEFAULTS:
-        opts.append(f'default={default_value(p)!r}')
+      if dflt == 'v' or dflt == 'o' or dflt in NUMERIC_DEFAULTS:
+        opts.append(f'default={default_source(p)}')
       elif dflt == 'f':
         opts.append('default_factory=list')
       if pkind == 'ko':
@@ -267,6 +273,11 @@ def gen_params(rng, *, allow_po=True, allow_va=True, allow_vk=True,
     for p in params:
       if p[2] == 'v' and rng.random() < 0.7:
         p[2] = rng.choice(sorted(NUMERIC_DEFAULTS))
+  if rng.random() < 0.15:
+    # a default that is an opaque object (sentinel-like): identity matters
+    for p in params:
+      if p[2] == 'v' and rng.random() < 0.5:
+        p[2] = 'o'
   if rng.random() < 0.25:
     # parameter names that internal helpers of a library like to use for their
     # own parameters (a keyword forwarded through such a helper collides)
